@@ -36,7 +36,7 @@ try:
     if ap.returncode == 0:
         # (a)+(b) build and baseline, with and without
         for tag, tree in (('with', wt),):
-            b = sh(f'rm -rf {tree}/_b && cmake -S {tree} -B {tree}/_b -G Ninja -DCMAKE_BUILD_TYPE=RelWithDebInfo -DCMAKE_C_FLAGS=-Wno-error >/dev/null 2>&1 && cmake --build {tree}/_b >/dev/null 2>&1 && ctest --test-dir {tree}/_b -j8 --timeout 900 | tail -3')
+            b = sh(f'rm -rf {tree}/_b && cmake -S {tree} -B {tree}/_b -G Ninja -DCMAKE_BUILD_TYPE=RelWithDebInfo -DCMAKE_C_FLAGS=-Wno-error >/dev/null 2>&1 && cmake --build {tree}/_b >/dev/null 2>&1 && mkdir -p {tree}/_b/tmp && TMPDIR={tree}/_b/tmp ctest --test-dir {tree}/_b -j8 --timeout 900 | tail -3')
             meta[f'baseline_{tag}_change'] = b.stdout.strip()[-200:]
         wt0 = tempfile.mkdtemp(prefix='seedbase-', dir='/tmp')
         os.rmdir(wt0)
